@@ -540,6 +540,10 @@ impl Curve {
     }
 
     pub fn scalar64_mul(&self, k: u64, p: &Point) -> Point {
+        if k == 0 {
+            // Neutral element (0, 1)
+            return Point(M128(0), self.one, self.one);
+        }
         // Prepare small steps.
         let pext = self.ext(p);
         let p2 = self.dblext(p);
